@@ -1,5 +1,6 @@
 import SigHook.Model.Default
 import SigHook.Gen.Platform
+import SigHook.Model.Skel
 /-!
 # C16 — Default-action emulation matches what the kernel would have done
 
@@ -60,5 +61,15 @@ theorem C16_numbers_unique : (Gen.details.map (·.2.1)).Nodup := by decide
 example : known Gen.details 15 = true ∧ emulate Gen.details 15 .inHandler = .killedBy 15 := by decide
 example : known Gen.details 20 = true ∧ emulate Gen.details 20 .inHandler = .stopped := by decide
 example : known Gen.details 300 = false ∧ emulate Gen.details 300 .normal = .err := by decide
+
+/-- **C16.emulation_skeleton** — tie to the source (regenerated): `emulate_default_handler` raises SIGKILL /
+SIGSTOP directly; otherwise it looks the number up *exactly* (`d.signal == signal`, no narrowing), answers
+`EINVAL` for a number that is not in the table, returns for an ignored signal, raises SIGSTOP for a stopping
+one, and for a terminating one restores the default disposition, unblocks *that one* signal, raises it, and
+aborts if the process is still there. -/
+theorem C16_emulation_skeleton :
+    skelOf "src/low_level/signal_details.rs" "emulate_default_handler" =
+      ["kill.stop.raise", "lookup.exact", "unknown.einval", "ignore.ok", "stop.raise", "term.restore",
+       "term.unblock.one", "term.raise", "term.abort"] := by decide
 
 end SigHook.Default
